@@ -286,6 +286,11 @@ func cmdDump(args []string) int {
 			fmt.Printf("  frame %-50s ok=%v actual={%s} %s\n", r.Name, r.OK, strings.Join(r.Actual, ", "), r.Detail)
 		}
 	}
+	if *prop != "" {
+		for _, it := range eng.sweepItems(*prop) {
+			fmt.Printf("  sweep %-70s %-10s %s [%s]\n", it.Name, it.Status, it.Detail, it.Pos)
+		}
+	}
 	for _, im := range eng.cs.Immutable {
 		if *prop == "" || hasString(im.Props, *prop) {
 			r := eng.checkImmutable(im)
